@@ -32,6 +32,7 @@ def plan(tier, seed):
     # ties below the top level, with transmissions long enough for an arrival to fall inside one
     for tab in ([[0, 3], [1, 2], [2, 2]], [[2, 2], [1, 2], [0, 3]], [[0, 1], [1, 1], [2, 5]]):
         cfgs.append(dict(sched="SP", table=tab, rate=8, flows=[0, 1, 2], sizes=[2], N=4 if quick else 5, gaps=["S", 1, 2], order=0))
+    cfgs.append(dict(sched="SP", table=[[0, 1], [1, 2]], rate=8, flows=[0, 1], sizes=[1.0, 2.5], N=n2 - 1, gaps="G3", order=0))
     # priorities are numbers, not necessarily whole ones; the table order must not matter
     for tab in ([[0, 1.2], [1, 1.8]], [[0, 1.8], [1, 1.2]], [[0, 0.5], [1, 0.25]]):
         cfgs.append(dict(sched="SP", table=tab, rate=8, flows=[0, 1], sizes=[1, 2], N=n2 - 1, gaps="G3", order=0))
